@@ -336,6 +336,18 @@ def main(argv=None):
                         standins.append({"set": nm, "why_not_proved": reasons[:5], "random_inputs_run_on_the_real_package": sr["tries"],
                                          "obligation_evaluations": sr["evaluated"], "obligations_evaluated_natively": sr.get("checked_names", []),
                                          "failing_inputs": 0, "label": "bounded (random testing of the executable contract; not a proof)"})
+        # what the stand-in did NOT reach: obligations of the committed baseline for this set that were neither
+        # discharged in this run nor evaluated natively (reported with the stand-in, so that "bounded" is not read as
+        # "every obligation of the set was at least tested")
+        try:
+            _bl = json.load(open(os.path.join(VERIF, "baseline_obligations.json"))).get(a.tier, {}).get(prop) or []
+        except (OSError, ValueError):
+            _bl = []
+        for st in standins:
+            done = {n for rj in results if rj["name"] == st["set"] for n, v in rj["obligations"].items() if v.get("status") == "discharged"}
+            done |= set(st["obligations_evaluated_natively"])
+            st["baseline_obligations_neither_proved_nor_evaluated"] = sorted(
+                n.split(" :: ", 1)[1] for n in _bl if n.split(" :: ")[0] == st["set"] and n.split(" :: ", 1)[1] not in done)
         covered = {st["set"] for st in standins}
         undecided = [(n, u) for n, u in undecided if n not in covered]
 
@@ -482,7 +494,9 @@ def main(argv=None):
     for st in standins:
         lines.append(f"BOUNDED-STAND-IN property={prop} set={st['set']}: not decided by the verifier ({st['why_not_proved'][0][:160]}); "
                      f"{st['random_inputs_run_on_the_real_package']} random inputs on the real package, "
-                     f"{st['obligation_evaluations']} obligation evaluations, none failed - bounded, not counted as proved")
+                     f"{st['obligation_evaluations']} obligation evaluations, none failed - bounded, not counted as proved"
+                     + (f"; {len(st['baseline_obligations_neither_proved_nor_evaluated'])} obligation(s) of this set were neither proved nor evaluated on this tree"
+                        if st.get("baseline_obligations_neither_proved_nor_evaluated") else ""))
     for n, u in undecided[:20]:
         lines.append(f"UNDECIDED property={prop} set={n}: {u[:300]}")
     for l in lines:
